@@ -3,6 +3,7 @@ the real bindgen; per-name inventories must be equal across orders and every run
 import json
 import os
 import random
+import subprocess
 
 import common as C
 
@@ -132,13 +133,141 @@ def named_inventory(inv):
     return out
 
 
+def tmpl_family(t):
+    """Gen_Tmpl structure (list of {k, j, m}) -> a family in the FAMILIES format."""
+    K = len(t)
+
+    def byval(i, seen=None):
+        seen = seen or set()
+        if i in seen:
+            return seen
+        seen.add(i)
+        o = t[i - 1]
+        if o["k"] in ("val", "named"):
+            byval(o["j"], seen)
+        elif o["k"] == "nest":
+            byval(o["j"], seen)
+            byval(o["m"], seen)
+        return seen
+    decls = {"Named": ("struct Named { float f; int i; };", "struct Named;", [], [])}
+    for i in range(1, K + 1):
+        o = t[i - 1]
+        needs, uses = [], []
+        if o["k"] == "param":
+            m = "A a;"
+        elif o["k"] == "int":
+            m = "int x;"
+        elif o["k"] == "arr":
+            m = "A arr[3];"
+        elif o["k"] == "ptr":
+            m = "T%d<A> *p;" % o["j"]
+            uses = ["T%d" % o["j"]]
+        elif o["k"] == "val":
+            m = "T%d<A> v;" % o["j"]
+            uses = ["T%d" % o["j"]]
+        elif o["k"] == "nest":
+            m = "T%d<T%d<A> > n;" % (o["j"], o["m"])
+            uses = sorted({"T%d" % o["j"], "T%d" % o["m"]})
+        else:
+            m = "T%d<Named> c;" % o["j"]
+            needs = sorted({"T%d" % x for x in byval(o["j"])} | {"Named"})
+        decls["T%d" % i] = ("template<class A> struct T%d { %s int tag; };" % (i, m), "template<class A> struct T%d;" % i,
+                            needs, [u for u in uses if u != "T%d" % i])
+    for i in range(1, K + 1):
+        need = sorted({"T%d" % x for x in byval(i)} | {"Named"})
+        # a pointer member's pointee template must be declared when the user instantiates
+        extra = sorted({"T%d" % t[x - 1]["j"] for x in byval(i) if t[x - 1]["k"] == "ptr"} - set(need))
+        decls["U%d" % i] = ("struct U%d { T%d<Named> a; T%d<int> b; T%d<Named> *p; };" % (i, i, i, i), "struct U%d;" % i,
+                            need, extra)
+    return {"lang": "c++", "flags": [], "decls": decls, "tmpl": t}
+
+
+def order_shape(fam, order):
+    """For template programs: does some template use a nested instantiation T_j<T_m<A>> before T_m (or T_j)
+    is defined, i.e. while it is only forward-declared?"""
+    t = fam.get("tmpl")
+    if not t:
+        return "fixed-family"
+    pos = {}
+    for k, (kind, d) in enumerate(order):
+        if kind == "def":
+            pos[d] = k
+    found = set()
+    for i, o in enumerate(t, 1):
+        me = pos.get("T%d" % i, 0)
+        if o["k"] == "nest" and (pos.get("T%d" % o["m"], 0) > me or pos.get("T%d" % o["j"], 0) > me):
+            found.add("nested")
+        if o["k"] in ("val", "ptr") and pos.get("T%d" % o["j"], 0) > me:
+            found.add("plain")
+    if "nested" in found:
+        return "nested-instantiation-of-forward-declared-template"
+    if "plain" in found:
+        return "instantiation-of-forward-declared-template"
+    return "all-templates-defined-before-use"
+
+
+def tmpl_programs(res, tier, rnd):
+    r = C.tlc(os.path.join(C.SPEC, "core", "Gen_Tmpl.tla"), cfg="Gen_Tmpl.cfg", workers=4, timeout=900, name="c07-gentmpl")
+    if not C.tlc_ok(r):
+        raise C.ToolError("Gen_Tmpl failed: " + r["out"][-1200:])
+    ts = C.tlc_prints(r["out"], "TMPL")
+    res.add(states=r["distinct"], transitions=r["generated"], template_programs_enumerated=len(ts))
+    ts.sort(key=json.dumps)
+    pick = rnd.sample(ts, 160 if tier == "thorough" else 24)
+    return [("tmpl%03d" % k, tmpl_family(t)) for k, t in enumerate(pick)]
+
+
+def clang_accepts(path, lang):
+    p = subprocess.run(["clang", "-fsyntax-only", "-w", "-x", lang, path], stdout=subprocess.PIPE, stderr=subprocess.PIPE)
+    return p.returncode == 0
+
+
+def multi_orders(fams, n_per, depth, seed):
+    """Random valid orders of many families in ONE TLC simulation run: {family index: [orders]}"""
+    d = C.workdir("c07-multi")
+    fj = os.path.join(d, "families.json")
+    with open(fj, "w") as f:
+        json.dump([{"decls": sorted(fam["decls"]), "needs": {k: v[2] for k, v in fam["decls"].items()},
+                    "uses": {k: v[3] for k, v in fam["decls"].items()},
+                    "fwdable": [k for k, v in fam["decls"].items() if v[1]], "maxfwd": 2} for _, fam in fams], f)
+    r = C.tlc(os.path.join(C.SPEC, "core", "Gen_OrderMulti.tla"), cfg="Gen_OrderMulti.cfg", env={"FAMILY": fj},
+              workers=1, simulate=n_per * len(fams) * 3, depth=depth, timeout=900, name="c07-multi",
+              extra=["-seed", str(seed)])
+    out = {}
+    for o in C.tlc_prints(r["out"], "ORDER"):
+        lst = out.setdefault(o["f"], [])
+        if o["order"] not in lst and len(lst) < n_per:
+            lst.append(o["order"])
+    if len(out) < len(fams):
+        raise C.ToolError("Gen_OrderMulti produced orders for %d of %d programs: %s" % (len(out), len(fams), r["out"][-600:]))
+    return out, r
+
+
+def run_family(res, name, fam, orders):
+    """Render one program under the given orders -> generation jobs."""
+    d = C.workdir("c07-r2-" + name)
+    cases = []
+    ext = ".hpp" if fam["lang"] == "c++" else ".h"
+    for i, o in enumerate(orders):
+        hp = os.path.join(d, "o%04d%s" % (i, ext))
+        with open(hp, "w") as f:
+            f.write(render(fam, o))
+        if not clang_accepts(hp, "c++"):
+            res.notes.append("generated order not accepted by clang, skipped: %s #%d" % (name, i))
+            continue
+        args = ["bindgen", "--formatter=none", "--disable-header-comment", hp] + DERIVES + fam["flags"]
+        cases.append({"id": "%s-o%04d" % (name, i), "args": args, "callbacks": None, "order": o})
+    return cases
+
+
 def run(res, tier, validate, report):
     rnd = random.Random(C.seed() * 1000003 + 7)
     limit = 400 if tier == "thorough" else 40
     maxfwd = 3 if tier == "thorough" else 2
     total_orders = used = 0
     gen_states = gen_trans = 0
-    for name, fam in sorted(FAMILIES.items()):
+    fams = sorted(FAMILIES.items())
+    for name, fam in fams:
         orders, total, r = orders_of(name, fam, maxfwd, limit, rnd)
         total_orders += total
         gen_states += r["distinct"]
@@ -171,7 +300,8 @@ def run(res, tier, validate, report):
                 continue
             if inv != base:
                 diff = sorted(str(k) for k in set(inv) | set(base) if inv.get(k) != base.get(k))
-                res.violation("order-dependent:%s:%s" % (name, ",".join(diff)[:120]),
+                shapes = sorted({order_shape(fam, base_case["order"]), order_shape(fam, c["order"])})
+                res.violation("order-dependent:%s:%s" % (name, "+".join(shapes)),
                               {"family": name, "order_a": base_case["order"], "order_b": c["order"],
                                
                                "a": {str(k): v for k, v in base.items() if str(k) in diff},
@@ -179,5 +309,43 @@ def run(res, tier, validate, report):
                                "header_b": render(fam, c["order"])})
         res.sample_case({"family": name, "orders_enumerated": total, "orders_run": len(cases),
                          "example_order": orders[min(1, len(orders) - 1)]})
+    # ---- TLC-generated template programs: one simulation run for the orders, one batch, one trace ----------
+    tm = tmpl_programs(res, tier, rnd)
+    orders, r = multi_orders(tm, 10 if tier == "thorough" else 5, 16, C.seed() + 3)
+    norders = sum(len(v) for v in orders.values())
+    gen_states += max(r["distinct"], norders)
+    gen_trans += max(r["generated"], norders)
+    allcases, per = [], {}
+    for k, (name, fam) in enumerate(tm, 1):
+        cases = run_family(res, name, fam, orders.get(k, []))
+        per[name] = (fam, cases)
+        allcases += cases
+    dd, out = C.run_cases_logged(allcases, "c07-r2run-tmpl")
+    used += len(allcases)
+    total_orders += len(allcases)
+    viol, drift, counts, tr = validate(res, dd, [c["id"] for c in allcases], "r2-tmpl")
+    report(res, viol)
+    res.add(traces_validated_against_impl=counts.get("cases", 0), lookups_checked=counts.get("lookups", 0))
+    invs = C.inventory([os.path.join(dd, c["id"] + ".rs") for c in allcases])
+    for name, (fam, cases) in sorted(per.items()):
+        base = None
+        for c in cases:
+            o = out.get(c["id"], {})
+            if o.get("outcome") != "ok":
+                res.notes.append("template program order not generated (%s): %s" % (o.get("outcome"), c["id"]))
+                continue
+            inv = named_inventory(invs.get(os.path.join(dd, c["id"] + ".rs"), {}))
+            if base is None:
+                base, base_case = inv, c
+                continue
+            if inv != base:
+                diff = sorted(str(k) for k in set(inv) | set(base) if inv.get(k) != base.get(k))
+                shapes = sorted({order_shape(fam, base_case["order"]), order_shape(fam, c["order"])})
+                res.violation("order-dependent:tmpl:%s" % "+".join(shapes),
+                              {"family": name, "order_a": base_case["order"], "order_b": c["order"],
+                               "a": {str(k): v for k, v in base.items() if str(k) in diff},
+                               "b": {str(k): v for k, v in inv.items() if str(k) in diff},
+                               "header_a": render(fam, base_case["order"]), "header_b": render(fam, c["order"])})
+    res.sample_case({"template_program": tm[0][1]["tmpl"], "orders_run": len(per[tm[0][0]][1])})
     res.add(declaration_orders_enumerated=total_orders, declaration_orders_run=used,
-            states=gen_states, transitions=gen_trans)
+            states=gen_states, transitions=gen_trans, template_programs_run=len(tm))
